@@ -25,7 +25,8 @@ TOL = Fraction(1, 10 ** 8)
 
 SPECS = [("src/phreeqcpp/prep.cpp", "Phreeqc::convert_units", "gen_convert_units"),
          ("src/phreeqcpp/step.cpp", "Phreeqc::add_solution", "gen_add_solution"),
-         ("src/phreeqcpp/step.cpp", "Phreeqc::add_mix", "gen_add_mix")]
+         ("src/phreeqcpp/step.cpp", "Phreeqc::add_mix", "gen_add_mix"),
+         ("src/phreeqcpp/basicsubs.cpp", "Phreeqc::calc_dens", "gen_calc_dens")]
 
 
 def gen():
@@ -102,7 +103,9 @@ def gen_solution(rng, n, redox_buffer=False):
     ans = rng.sample(ANIONS, rng.randint(1, 3))
     for e in cats + ans:
         comps.append([e, rnd_round(rng, logu(rng, 1e-5, 2e-2))])
-    carb = rng.choice(["C(4)", "Alkalinity", None])
+    # solutions that go through a reaction step are carbonate-buffered: in an unbuffered solution pH is fixed by the
+    # H/O balances alone, whose convergence criterion is relative to 111 + 2*55.5 mol (notes/C15.md, FA1)
+    carb = rng.choice(["C(4)", "Alkalinity"] if redox_buffer else ["C(4)", "Alkalinity", None])
     if carb:
         comps.append([carb, rnd_round(rng, logu(rng, 1e-4, 5e-3))])
     if rng.random() < 0.3:
@@ -114,6 +117,13 @@ def gen_solution(rng, n, redox_buffer=False):
 
 
 def gen_system(rng, family):
+    S = gen_system0(rng, family)
+    # a third of the bases are written per litre with `density 1.0 calculate` (density iteration of the initial solution)
+    S["perlitre"] = family in ("speciation", "batch", "exchange", "kinetics", "mix", "gas") and rng.random() < 0.33
+    return S
+
+
+def gen_system0(rng, family):
     """A base system: solutions + reactant blocks + what to use in the reaction step."""
     S = {"family": family, "solutions": [], "blocks": [], "use": [], "rates": None}
     rb = family != "speciation"
@@ -215,7 +225,7 @@ class Renderer:
         """spec: dict(unit=None|'mg/kgw'.., asf=None|formula, gfw=None|number). Returns the text of the line and
         the exact description (for the model-vs-code comparison)."""
         unit = spec.get("unit") or defunit
-        cu = canon_unit(unit)
+        cu = canon_unit_any(unit)
         if cu is None:
             raise ValueError("generator produced an unknown unit " + unit)
         u = cu.split("/")[0]
@@ -253,11 +263,14 @@ class Renderer:
             blocks.append(self.render_spread(sols, V, rn, k, lines_desc))
         else:
             for s in sols:
-                du = V["defunits"].get(s["n"], "mol/kgw")
+                du = V["defunits"].get(s["n"], "mol/L" if S.get("perlitre") else "mol/kgw")
                 L = ["SOLUTION %d" % rn("solution", s["n"]), "    temp %s" % fnum(s["temp"]), "    pH %s" % fnum(s["pH"]), "    pe %s" % fnum(s["pe"]),
                      "    units %s" % du, "    -water %s" % fnum(s["water"] * k * V.get("rebatch", {}).get(s["n"], 1.0))]
                 if s.get("pressure"):
                     L.append("    pressure %s" % fnum(s["pressure"]))
+                if S.get("perlitre"):
+                    # per-litre input: the engine iterates the density (initial_solutions / calc_dens) to convert to mol/kgw
+                    L.append("    density 1.0 calculate")
                 cl = []
                 descs = []
                 for e, m in s["comps"]:
@@ -287,7 +300,10 @@ class Renderer:
                 blocks.append(blocks[i])
         if prng:
             prng.shuffle(blocks)
-        out = [select]
+        # Solver noise must stay far below the property's 1e-8: every run (base and variant alike) asks for the tightest
+        # workable convergence tolerance.  -high_precision already sets 1e-12; 1e-13 is the last value at which the
+        # mass-of-oxygen criterion (0.01 * tol * 55.5 mol) is still above the rounding of 55.5 mol.  (notes/C15.md, FA1)
+        out = [select, "KNOBS\n    -convergence_tolerance 1e-13\n    -iterations 300"]
         if S.get("rates"):
             out.append("\n".join(S["rates"]))
         out += blocks
@@ -435,9 +451,11 @@ def select_block(S):
         L.append("    -gases " + " ".join(gases))
     if kin:
         L.append("    -kinetic_reactants " + " ".join(kin))
-    L += ["USER_PUNCH 1", "    -headings " + " ".join("tm_" + e for e in elems)]
+    L += ["USER_PUNCH 1", "    -headings " + " ".join("tm_" + e for e in elems) + " rho soln_vol sc"]
     for i, e in enumerate(elems):
-        L.append('    %d PUNCH TOTMOLE("%s")' % (10 * (i + 1), e.split("(")[0] if False else e))
+        L.append('    %d PUNCH TOTMOLE("%s")' % (10 * (i + 1), e))
+    # density and specific conductance are intensive, the solution volume is extensive (calc_dens, calc_SC)
+    L.append("    %d PUNCH RHO, SOLN_VOL, SC" % (10 * (len(elems) + 1)))
     return "\n".join(L)
 
 
@@ -447,9 +465,9 @@ def classify(head):
         return None
     if head.startswith(("d_", "dk_")):
         return None            # differences of extensive amounts: covered by the amounts themselves
-    if head in ("mass_H2O", "total mol", "volume") or head.startswith(("tm_", "k_", "g_")):
+    if head in ("mass_H2O", "total mol", "volume", "soln_vol") or head.startswith(("tm_", "k_", "g_")):
         return "ext"
-    if head in ("pH", "pe", "mu", "temp", "Alk", "temp(C)", "Alk(eq/kgw)", "pressure"):
+    if head in ("pH", "pe", "mu", "temp", "Alk", "temp(C)", "Alk(eq/kgw)", "pressure", "rho", "sc"):
         return "int"
     if head.startswith(("la_", "si_")):
         return "log"           # logarithms of intensive quantities
@@ -511,16 +529,27 @@ UNIT_SPELL = {"mol/kgw": ["mol/kgw", "Mol/kgw", "moles/kgw"], "mmol/kgw": ["mmol
               "g/kgw": ["g/kgw", "gram/kgw"], "mg/kgw": ["mg/kgw", "milligrams/kgw"], "ug/kgw": ["ug/kgw", "microgram/kgw"]}
 
 
-def rand_unit_spec(rng, e, allow_default=True):
+def rand_unit_spec(rng, e, allow_default=True, perlitre=False):
     sp = {}
+    units, spell, eqs = (LUNITS, LUNIT_SPELL, ["eq/L", "meq/L", "ueq/l"]) if perlitre else (UNITS, UNIT_SPELL, ["eq/kgw", "meq/kgw", "ueq/kgw"])
+    if perlitre:
+        # Per-litre inputs are converted through the density iteration of initial_solutions, which stops when two
+        # successive densities differ by less than 1e-8 (absolute, hard-coded).  Descriptions that change the solute-mass
+        # estimate of the FIRST iterate (mass units, `as`, `gfw`) start that iteration elsewhere and end up to ~1.5e-8
+        # apart (finding N5).  The per-litre family therefore only varies prefix and spelling of mole units, which
+        # leaves every iterate identical in exact arithmetic.
+        if allow_default and rng.random() < 0.25:
+            return sp
+        sp["unit"] = rng.choice(eqs) if (e == "Alkalinity" and rng.random() < 0.4) else rng.choice(spell[rng.choice(units[:3])])
+        return sp
     r = rng.random()
     if allow_default and r < 0.25:
         pass                                   # default units of the solution
     else:
         if e == "Alkalinity" and rng.random() < 0.4:
-            sp["unit"] = rng.choice(["eq/kgw", "meq/kgw", "ueq/kgw"])
+            sp["unit"] = rng.choice(eqs)
         else:
-            sp["unit"] = rng.choice(UNIT_SPELL[rng.choice(UNITS)])
+            sp["unit"] = rng.choice(spell[rng.choice(units)])
     if e in AS_OPTIONS and rng.random() < 0.5:
         sp["asf"] = rng.choice(AS_OPTIONS[e])
     elif rng.random() < 0.2:
@@ -543,10 +572,11 @@ def make_variant(rng, S, t):
                         if ("spread", e) not in V["units"]:
                             V["units"][("spread", e)] = rand_unit_spec(rng, e)
             else:
+                pl = bool(S.get("perlitre"))
                 for s in S["solutions"]:
-                    V["defunits"][s["n"]] = rng.choice(UNIT_SPELL[rng.choice(UNITS)])
+                    V["defunits"][s["n"]] = rng.choice((LUNIT_SPELL if pl else UNIT_SPELL)[rng.choice(LUNITS[:3] if pl else UNITS)])
                     for e, _ in s["comps"]:
-                        V["units"][(s["n"], e)] = rand_unit_spec(rng, e)
+                        V["units"][(s["n"], e)] = rand_unit_spec(rng, e, perlitre=pl)
         elif t == "water":
             V["k"] = rnd_round(rng, logu(rng, 1e-3, 1e3))
         elif t == "perm":
@@ -594,7 +624,7 @@ def applicable(family, t):
     if t in ("mixorder", "selfmix", "mixscale", "rebatch", "mixassoc"):
         return family == "mix"
     if t == "spread":
-        return family in ("speciation", "batch", "mix", "exchange")
+        return family in ("speciation", "batch", "mix", "exchange")      # (not used for per-litre bases, see run)
     return True
 
 
@@ -754,12 +784,37 @@ def safe_gfw(R, e):
         return None
 
 
+LUNITS = ["mol/L", "mmol/L", "umol/L", "g/L", "mg/L", "ug/L"]
+LUNIT_SPELL = {"mol/L": ["mol/L", "mol/l", "moles/liter"], "mmol/L": ["mmol/L", "mMol/l", "millimol/L"], "umol/L": ["umol/L", "micromol/l"],
+               "g/L": ["g/L", "gram/l"], "mg/L": ["mg/L", "milligrams/liter"], "ug/L": ["ug/L", "microgram/L"]}
+
+
+def canon_unit_any(u):
+    """canonical spelling (Phreeqc::check_units) of a per-kgw or per-litre unit the generator uses"""
+    c = canon_unit(u)
+    if c:
+        return c
+    v = u.lower().replace("milli", "m").replace("micro", "u").replace("grams", "g").replace("gram", "g").replace("moles", "Mol").replace("mol", "Mol").replace("liter", "l")
+    if v in ("Mol/l", "mMol/l", "uMol/l", "g/l", "mg/l", "ug/l", "eq/l", "meq/l", "ueq/l"):
+        return v
+    return None
+
+
 def canon_unit(u):
     """canonical spelling produced by Phreeqc::check_units for the spellings the generator uses"""
     u = u.lower().replace("milli", "m").replace("micro", "u").replace("grams", "g").replace("gram", "g").replace("moles", "Mol").replace("mol", "Mol")
     if u in ("Mol/kgw", "mMol/kgw", "uMol/kgw", "g/kgw", "mg/kgw", "ug/kgw", "eq/kgw", "meq/kgw", "ueq/kgw"):
         return u
     return None
+
+
+def rounding_floor_failure(err):
+    """True when the run ended in a convergence ERROR whose reported residuals are all at the rounding level (<= 1e-11):
+    a consequence of the 1e-13 convergence tolerance the generator requests, not a property of the input."""
+    if "not converged" not in err and "failed to converge" not in err and "Numerical method failed" not in err:
+        return False
+    rs = [abs(float(x)) for x in re.findall(r"Residual:\s*([-+0-9.eE]+)", err)]
+    return bool(rs) and max(rs) <= 1e-11
 
 
 def attribute_failures(ctx):
@@ -771,9 +826,15 @@ def attribute_failures(ctx):
     m0 = re.search(r"^Require Import(.*?)\.\s*$", src, flags=re.S | re.M)
     mods = re.findall(r"IPV\.[\w.]+", m0.group(1)) if m0 else []
     avail = []
+    gen_vo = os.path.join(vlib.COQ, "Gen", "Gen_C15_engine.vo")
+    gen_t = os.path.getmtime(gen_vo) if os.path.exists(gen_vo) else float("inf")
+    independent = {"IPV.C15.Ir", "IPV.C15.Units", "IPV.C15.UnitsProofs", "IPV.C15.Store", "IPV.C15.Mix", "IPV.C15.Checker",
+                   "IPV.C15.ExecLemmas", "IPV.C15.Homog"}       # do not import the generated file
     for md in mods:
         rel = md.split(".", 1)[1].replace(".", "/")
-        if os.path.exists(os.path.join(vlib.COQ, rel + ".vo")) and vlib._vo_fresh(rel + ".vo"):
+        vo = os.path.join(vlib.COQ, rel + ".vo")
+        # a .vo left over from an earlier run against other generated code is not "built"
+        if os.path.exists(vo) and vlib._vo_fresh(rel + ".vo") and (md in independent or os.path.getmtime(vo) >= gen_t):
             avail.append(md)
     head = src[:m0.start()] + "Require Import " + " ".join(avail) + ".\n" + src[m0.end():src.index("(* ----", m0.end())]
     chunks = re.findall(r"^((?:Theorem|Example)\s+([\w']+).*?\bQed\.)", src, flags=re.S | re.M)
@@ -839,6 +900,8 @@ def run(ctx):
         S = gen_system(rng, fam)
         if t == "mixassoc" and len(S["solutions"]) < 3:
             t = "rebatch"
+        if t == "spread" and S.get("perlitre"):
+            t = "water"
         V = make_variant(rng, S, t)
         plan.append((fam, t, S, V))
     jobs, descs = [], []
@@ -868,6 +931,11 @@ def run(ctx):
             continue
         if rb.get("rc", 1) != 0 and rv.get("rc", 1) != 0:
             stats["error_runs"] += 1       # outside the premises: the base input itself is rejected
+            continue
+        if (rb.get("rc", 1) != 0 or rv.get("rc", 1) != 0) and rounding_floor_failure((rb.get("err") or "") + (rv.get("err") or "")):
+            # the solver could not reach the tolerance the generator itself asked for (1e-13): residuals at the rounding
+            # level, no result to compare -- outside the premises, counted
+            stats["nonconverged_at_1e-13"] = stats.get("nonconverged_at_1e-13", 0) + 1
             continue
         if rb.get("rc", 1) != 0 or rv.get("rc", 1) != 0:
             # one description is accepted and the equivalent one is not
